@@ -221,6 +221,17 @@ class MethodEval:
             return ('tuple', tuple(self.psyms("constants")))
         if d == "EPS":
             return ('sym', 'EPS')
+        if d and "." not in d and d not in env:
+            # any other module-level name bound once to a numeric literal is that number
+            tree = getattr(self.tc.mod, "tree", None)
+            binds = [n for n in (tree.body if tree is not None else []) if isinstance(n, ast.Assign) and any(isinstance(t, ast.Name) and t.id == d for t in n.targets)]
+            if len(binds) == 1:
+                v = binds[0].value
+                neg = False
+                if isinstance(v, ast.UnaryOp) and isinstance(v.op, ast.USub):
+                    v, neg = v.operand, True
+                if isinstance(v, ast.Constant) and isinstance(v.value, (int, float)) and not isinstance(v.value, bool):
+                    return num(-v.value if neg else v.value)
         if d and d.startswith("self.") and d.count(".") == 1:
             a = d.split(".")[1]
             if a in self.tc.inner and self.tc.inner[a] in self.classes:
